@@ -16,6 +16,7 @@ package limits
 
 import (
 	"errors"
+	"math"
 	"sort"
 	"strconv"
 	"strings"
@@ -172,6 +173,9 @@ func parseSize(sizeStr string) int64 {
 			size, err := strconv.ParseInt(sizeStr[0:len(sizeStr)-len(unit.symbol)], 10, 64)
 			if err != nil {
 				return -1
+			}
+			if size < 0 || size > math.MaxInt64/unit.multiplier {
+				return -1 // negative, or the product does not fit an int64
 			}
 			return size * unit.multiplier
 		}
